@@ -117,6 +117,8 @@ def chunks(tier):
     out += [("HR", i) for i in range(len(MUT_SYSTEMS))]
     out += [("PN", orient) for orient in ORIENTATIONS]
     out += [("GV", i) for i in range(len(GV_SYSTEMS))]
+    out += [("PT", orient) for orient in ORIENTATIONS]
+    out += [("WS", i) for i in range(len(WS_SYSTEMS))]
     return out
 
 
@@ -170,7 +172,8 @@ def judge(names, idx, K, init, x):
     return sorted(kinds), mags
 
 
-def judge_precip(init, x, KSP):
+def judge_precip(init, x, KSP, scale=1.0):
+    """scale: the concentration scale of the problem (the 'solid absent' threshold is relative to it)"""
     import numpy as np
 
     x = np.asarray(x, dtype=float).ravel()
@@ -192,7 +195,7 @@ def judge_precip(init, x, KSP):
     ip = na * cl
     mags["ip_over_ksp"] = float(ip / KSP)
     met = abs(ip / KSP - 1) <= RTOL
-    if solid > SOLID_ABSENT:
+    if solid > SOLID_ABSENT * scale:
         if not met:
             kinds.add("solid-present-IP!=Ksp")
     elif not (met or ip <= KSP * (1 + RTOL)):
@@ -462,6 +465,18 @@ def run_chunk(chunk, tier):
                 if any(init):
                     prebuilt_case(res, orient, kb, kn, chain, list(init))
         res.sample(dict(layer="PN", system="NaCl(s) written as " + orient, ksp_built_then_now=PN_KSP, lattice=PN_LATTICE), limit=1)
+    elif chunk[0] == "PT":
+        _, orient = chunk
+        for ksp, chain in itertools.product(PT_KSP, CHAINS):
+            for lat in itertools.product(PT_LATTICE, PT_LATTICE, (0.0, 1.0)):
+                if any(lat):
+                    tiny_ksp_case(res, orient, ksp, chain, lat)
+        res.sample(dict(layer="PT", system="salt written as " + orient, ksp=PT_KSP, lattice_in_units_of_10_sqrt_Ksp=PT_LATTICE), limit=1)
+    elif chunk[0] == "WS":
+        tags = WS_SYSTEMS[chunk[1]]
+        for chain in (("Log",), ("Log", "Lin")):
+            warm_start_case(res, tags, chain)
+        res.sample(dict(layer="WS", system=list(tags), levels=WS_LEVELS), limit=1)
     elif chunk[0] == "GV":
         tags = GV_SYSTEMS[chunk[1]]
         nfree = len([n for n in M.species_of(_idx(tags)) if n != "H2O"])
@@ -566,6 +581,75 @@ def prebuilt_case(res, orient, kb, kn, chain, init):
                   case, dict(x=[float(v) for v in x], kinds=kinds, mags=mags), "the state of the system with its current Ksp")
 
 
+PT_KSP = [1e-18, 1e-12]
+PT_LATTICE = [0.0, 1.0, 3.0]  # in units of 10*sqrt(Ksp): ion products 0, 100 Ksp, 300 Ksp, 900 Ksp
+
+
+def tiny_ksp_case(res, orient, ksp, chain, lat):
+    """a very sparingly soluble salt in a dilute solution (every quantity far below 1e-9): same clause, relative thresholds"""
+    import numpy as np
+
+    unit = 10.0 * ksp ** 0.5
+    init = [v * unit for v in lat]
+    es, names = build_precip(orient, ksp)
+    run = "precip-root-tiny-Ksp|%s" % "+".join(chain)
+    case = dict(layer="PT", orient=orient, ksp=ksp, chain=list(chain), lat=list(lat))
+    res.states += 1
+    res.transitions += 1
+    res.evaluations += 1
+    x, success, sane, exc = run_root(es, names, init, chain, False)
+    claim = _claim(success, sane, exc)
+    if claim != "success+sane":
+        res.outcomes["%s:%s" % (run, claim)] += 1
+        return
+    res.nontrivial += 1
+    kinds, mags = judge_precip(init, x, ksp, scale=unit)
+    if not kinds:
+        res.outcomes["%s:success+sane:genuine" % run] += 1
+        return
+    res.outcomes["%s:success+sane:NOT-GENUINE(%s)" % (run, "+".join(kinds))] += 1
+    res.violation(_key(run, kinds), "%s claims success and a sane result for a salt with Ksp=%g written as %s, init=%s, but returns %s: %s (%s)"
+                  % (run, ksp, orient, dict(zip(names, init)), [float("%.6g" % v) for v in x], ", ".join(kinds), ", ".join("%s=%.3g" % kv for kv in sorted(mags.items()))),
+                  case, dict(x=[float(v) for v in x], kinds=kinds, mags=mags), "solid present and IP=Ksp, or absent and IP<=Ksp")
+
+
+WS_SYSTEMS = [("water", "nh4"), ("water", "hac"), ("hac",), ("nh4", "hac")]
+WS_LEVELS = [1e-4, 1e-2]
+
+
+def warm_start_case(res, tags, chain):
+    """a titration-like sweep: every point is solved with the previous point's solution as the starting guess (x0=); the
+    answer must carry the totals of ITS OWN initial state"""
+    import numpy as np
+
+    shifts = (0,) * len(tags)
+    es, names, idx, K = build(tags, shifts)
+    free = [n for n in names if n != "H2O"]
+    prev = None
+    for pt, vals in enumerate(itertools.product(WS_LEVELS, repeat=len(free))):
+        d = dict(zip(free, vals))
+        init = [H2O if n == "H2O" else d[n] for n in names]
+        case = dict(layer="WS", tags=list(tags), chain=list(chain), pt=pt)
+        res.states += 1
+        res.transitions += 1
+        res.evaluations += 1
+        try:
+            kw = {} if prev is None else dict(x0=prev)
+            x, sol, sane = es.root(dict(zip(names, init)), NumSys=_numsys(chain), **kw)
+            x, success, sane, exc = np.asarray(x, dtype=float), bool(sol["success"]), bool(sane), None
+        except Exception as e:
+            x, success, sane, exc = None, False, False, "EXC %s" % type(e).__name__
+        claim = _claim(success, sane, exc)
+        run = "root-warm-start|%s|rp=0" % "+".join(chain)
+        what_sys = "%s init=%s%s" % ("+".join(tags), dict(zip(names, init)), "" if prev is None else " started from the previous point's solution")
+        kinds, mags = judge(names, idx, K, init, x) if claim == "success+sane" else ([], {})
+        if claim == "success+sane":
+            res.nontrivial += 1
+        _record(res, run, what_sys, case, claim, kinds, mags, x)
+        if claim == "success+sane" and not kinds:
+            prev = x
+
+
 GV_SYSTEMS = [("water", "nh4"), ("water", "hac"), ("nh4", "hac")]
 GV_VALUES = ([1e-4, 1e-2], [1e-6, 1e-4, 1e-2])
 
@@ -618,9 +702,14 @@ def grid_order_case(res, tags, a, b):
 
 # --------------------------------------------------------------------------------------------- replay
 def replay(case):
-    if case.get("layer") in ("PN", "GV"):
+    if case.get("layer") in ("PN", "GV", "PT", "WS"):
         res = Result()
-        if case["layer"] == "PN":
+        if case["layer"] == "PT":
+            tiny_ksp_case(res, case["orient"], case["ksp"], tuple(case["chain"]), case["lat"])
+        elif case["layer"] == "WS":
+            warm_start_case(res, tuple(case["tags"]), tuple(case["chain"]))
+            res.violations = [v for v in res.violations if v["case"].get("pt") == case["pt"]]
+        elif case["layer"] == "PN":
             prebuilt_case(res, case["orient"], case["kb"], case["kn"], tuple(case["chain"]), case["init"])
         else:
             grid_order_case(res, tuple(case["tags"]), case["a"], case["b"])
